@@ -390,3 +390,74 @@ Proof.
   { unfold sx32, w32. repeat match goal with |- context [if ?c then _ else _] => destruct c eqn:? end; lia. }
   rewrite Q, Z.eqb_refl. auto.
 Qed.
+
+(* ---- 64-bit integers below 2^53 convert to doubles exactly ---- *)
+Lemma pos_ctz_odd p : Z.odd (Zpos (fst (pos_ctz p))) = true.
+Proof.
+  induction p as [p IH|p IH|]; cbn [pos_ctz]; try reflexivity.
+  destruct (pos_ctz p) as [r k]. exact IH.
+Qed.
+
+Lemma odd_times_pow r c n j : Z.odd r = true -> 0 <= c -> 0 <= j -> r * 2 ^ c = n * 2 ^ j -> j <= c /\ n = r * 2 ^ (c - j).
+Proof.
+  intros O C J E.
+  destruct (Z_lt_le_dec c j) as [L|L].
+  - exfalso. replace j with (c + (j - c)) in E by lia. rewrite Z.pow_add_r in E by lia.
+    assert (P : 0 < 2 ^ c) by (apply Z.pow_pos_nonneg; lia).
+    assert (E2 : r = n * 2 ^ (j - c)) by nia.
+    replace (j - c) with (1 + (j - c - 1)) in E2 by lia. rewrite Z.pow_add_r in E2 by lia. change (2 ^ 1) with 2 in E2.
+    rewrite E2 in O. rewrite Z.odd_mul, Z.odd_mul in O. cbn in O. rewrite andb_false_r in O. discriminate.
+  - split; auto. replace c with (j + (c - j)) in E by lia. rewrite Z.pow_add_r in E by lia.
+    assert (P : 0 < 2 ^ j) by (apply Z.pow_pos_nonneg; lia). nia.
+Qed.
+
+(* dnorm of a dyadic m * 2^k with k <= 0 that is an integer n: the result is an exact integer representation *)
+Lemma dnorm_integer m k n : k <= 0 -> m = n * 2 ^ (- k) -> let '(m', e') := dnorm m k in 0 <= e' /\ m' * 2 ^ e' = n.
+Proof.
+  intros K E. destruct m as [|p|p]; cbn [dnorm].
+  - split; [lia|]. assert (P : 0 < 2 ^ (- k)) by (apply Z.pow_pos_nonneg; lia).
+    symmetry in E. apply Z.mul_eq_0 in E. destruct E as [E|E]; lia.
+  - pose proof (pos_ctz_spec p) as S. pose proof (pos_ctz_odd p) as O. destruct (pos_ctz p) as [r c]. destruct S as [V C]. cbn [fst] in O.
+    rewrite V in E. destruct (odd_times_pow (Zpos r) c n (- k) O C ltac:(lia) E) as [J N].
+    split; [lia|]. rewrite N. f_equal. f_equal. lia.
+  - pose proof (pos_ctz_spec p) as S. pose proof (pos_ctz_odd p) as O. destruct (pos_ctz p) as [r c]. destruct S as [V C]. cbn [fst] in O.
+    assert (E' : Zpos r * 2 ^ c = (- n) * 2 ^ (- k)) by (rewrite <- V; lia).
+    destruct (odd_times_pow (Zpos r) c (- n) (- k) O C ltac:(lia) E') as [J N].
+    split; [lia|]. replace (k + c) with (c - - k) by lia. lia.
+Qed.
+
+Lemma ratio_to_dbl_small n : 0 < n < 2 ^ 53 ->
+  let '(m, k) := ratio_to_dbl n 1 in k <= 0 /\ m = n * 2 ^ (- k).
+Proof.
+  intro R. unfold ratio_to_dbl. destruct (n =? 0) eqn:Z; [lia|].
+  change (Z.log2 1) with 0.
+  pose proof (Z.log2_spec n ltac:(lia)) as [LO HI].
+  assert (L52 : Z.log2 n <= 52).
+  { destruct (Z_le_gt_dec (Z.log2 n) 52); auto. exfalso.
+    assert (2 ^ 53 <= 2 ^ Z.log2 n) by (apply Z.pow_le_mono_r; lia). lia. }
+  pose proof (Z.log2_nonneg n) as L0.
+  set (k0 := Z.log2 n - 0 - 53). assert (K0 : k0 < 0) by (unfold k0; lia).
+  destruct (k0 >=? 0) eqn:G; [lia|].
+  rewrite Z.div_1_r.
+  assert (Q : 2 ^ 53 <= n * 2 ^ (- k0)).
+  { replace (2 ^ 53) with (2 ^ Z.log2 n * 2 ^ (- k0)).
+    - apply Z.mul_le_mono_nonneg_r; auto. apply Z.pow_nonneg; lia.
+    - rewrite <- Z.pow_add_r by lia. f_equal. unfold k0. lia. }
+  destruct (n * 2 ^ (- k0) <? 2 ^ 53) eqn:Q2; [lia|].
+  destruct (k0 + 1 >=? 0) eqn:G2.
+  - assert (k0 + 1 = 0) by lia. split; [lia|]. replace (k0 + 1) with 0 by lia. cbn [Z.opp]. rewrite Z.pow_0_r, Z.mul_1_r.
+    unfold div_rne. rewrite Z.div_1_r, Z.mod_1_r. cbn. lia.
+  - split; [lia|]. unfold div_rne. rewrite Z.div_1_r, Z.mod_1_r. cbn. lia.
+Qed.
+
+Theorem int64_to_double_exact s z :
+  (s = SI64 z \/ s = SU64 z) -> - 2 ^ 53 < z < 2 ^ 53 -> let '(m, e) := to_dbl (VS s) in m * 2 ^ e = z /\ 0 <= e.
+Proof.
+  intros S R. assert (T : to_dbl (VS s) = dbl_of_Z z) by (destruct S as [-> | ->]; reflexivity). rewrite T. clear T S.
+  unfold dbl_of_Z. destruct (Z.eq_dec z 0) as [->|NZ]; [cbn; lia|].
+  pose proof (ratio_to_dbl_small (Z.abs z) ltac:(lia)) as P.
+  destruct (ratio_to_dbl (Z.abs z) 1) as [m k]. destruct P as [K M].
+  destruct (z <? 0) eqn:N.
+  - pose proof (dnorm_integer (- m) k z K ltac:(lia)) as D. destruct (dnorm (- m) k) as [m' e']. lia.
+  - pose proof (dnorm_integer m k z K ltac:(lia)) as D. destruct (dnorm m k) as [m' e']. lia.
+Qed.
